@@ -53,7 +53,7 @@ fn validate_onepath<const PLEN: usize, const CLEN: usize>() {
     kani::cover!(PLEN < 2 || !matchable || (want && is_global(&parts[0])), "match through a leading placeholder reached");
     let doc = [(chain[0], EBMLSize::Known(0), 0usize), (chain[1], EBMLSize::Known(0), 0), (chain[2], EBMLSize::Known(0), 0)];
     let got = validate_tag_path::<OnePathTag>(0x90, doc.into_iter().take(CLEN));
-    assert!(got == want, "C11a: validate_tag_path accepts exactly the chains the declared path matches as a pattern");
+    assert!(got == want, "C11/C06/C02a: validate_tag_path accepts exactly the chains the declared path matches as a pattern");
 }
 
 macro_rules! val_h {
@@ -108,5 +108,5 @@ fn c07_is_ended_by_table() {
     kani::cover!(!want && global, "global element reached");
     kani::cover!(!want && !declared, "undeclared id reached");
     kani::cover!(want && m == tree::A && e == tree::A2, "sibling master reached");
-    assert!(got == want, "C07a: an unknown-size master is ended exactly by a sibling, an instance of one of its ancestors, or a root element - never by a global or unknown element");
+    assert!(got == want, "C07/C06/C11a: an unknown-size master is ended exactly by a sibling, an instance of one of its ancestors, or a root element - never by a global or unknown element");
 }
